@@ -369,10 +369,15 @@ pub fn cases(thorough: bool) -> Vec<(Case, &'static str)> {
             }
             // continuation combined with padding and priority
             for a in [1usize, len / 2, len.saturating_sub(1)] {
-                v.push((Case { framing: Framing { splits: vec![a], pad: Some(2), prio: Some((false, 0, 15)), end_stream: false, cont_flags: 0 }, ..base.clone() }, "continuation"));
+                v.push((Case { framing: Framing { splits: vec![a], pad: Some(2), prio: Some((false, 0, 15)), end_stream: false, cont_flags: 0, hdr_flags: 0 }, ..base.clone() }, "continuation"));
                 // undefined flag bits on the CONTINUATION frame (the ones that mean PADDED / PRIORITY / END_STREAM on HEADERS)
                 for cf in [0x08u8, 0x20, 0x29, 0xfb] {
                     v.push((Case { framing: Framing { splits: vec![a], cont_flags: cf, ..Default::default() }, ..base.clone() }, "continuation"));
+                }
+                // undefined bits on the HEADERS frame itself, alone and next to PADDED / PRIORITY
+                for hf in [0x02u8, 0x10, 0x40, 0x80, 0xd2] {
+                    v.push((Case { framing: Framing { hdr_flags: hf, ..Default::default() }, ..base.clone() }, "framings"));
+                    v.push((Case { framing: Framing { splits: vec![a], hdr_flags: hf, pad: Some(3), prio: Some((true, 7, 9)), ..Default::default() }, ..base.clone() }, "continuation"));
                 }
             }
         }
